@@ -443,22 +443,22 @@ type vHandlerState struct {
 
 type vEngine struct {
 	lastInner context.Context // the caller's own context built by the last ctxFor (before the spying wrapper)
-	ev       *vEvents
-	conn     *simConn
-	hooks    *vHooks
-	xp       Transporter
-	tr       *transport
-	cli      *Client
-	srv      *Server
-	calls    map[string]*vCallState
-	hmu      sync.Mutex
-	handlers []*vHandlerState
-	timeouts int
-	tagKeys  map[interface{}]string
-	tornDown int32
-	baseG    int // goroutines of the library alive before this engine existed (leaked by earlier cases)
-	baseDump map[string]int
-	session  context.Context // when set, every call's context is derived from this one (a context that already carries tags)
+	ev        *vEvents
+	conn      *simConn
+	hooks     *vHooks
+	xp        Transporter
+	tr        *transport
+	cli       *Client
+	srv       *Server
+	calls     map[string]*vCallState
+	hmu       sync.Mutex
+	handlers  []*vHandlerState
+	timeouts  int
+	tagKeys   map[interface{}]string
+	tornDown  int32
+	baseG     int // goroutines of the library alive before this engine existed (leaked by earlier cases)
+	baseDump  map[string]int
+	session   context.Context // when set, every call's context is derived from this one (a context that already carries tags)
 }
 
 type vCtxKey string
